@@ -2,28 +2,58 @@ from vlib import Obl, Prog
 
 
 def lemma_grid(tier):
+    """Shapes of the control-file image: COLON=0 plain lists (locals, percenthack: entries of 1..3 bytes),
+    COLON=1 key:value lists (virtualdomains: key 0..4 + ':' + prepend 0..2, the colon position is symbolic
+    inside the entry).  QL = length of the looked-up string."""
     pts = []
+
+    def add(colon, lens, qls):
+        for ql in qls:
+            p = {"COLON": colon, "NE": len(lens), "QL": ql}
+            for i, l in enumerate(lens):
+                p["ELEN%d" % i] = l
+            pts.append(p)
+
     if tier == "quick":
-        shapes0 = [(2, 2)]
-        shapes1 = [(3, 3)]
-        qls = [0, 1, 2]
+        add(0, [], [1]); add(1, [], [0])
+        for l in (1, 2, 3):
+            add(0, [l], [l, l + 1])
+        for lens in ([2, 2], [1, 3], [3, 1], [3, 3]):
+            add(0, lens, [1, 2, 3])
+        for l in (1, 3, 5):
+            add(1, [l], [0, 2])
+        for lens in ([3, 3], [1, 4], [5, 2]):
+            add(1, lens, [0, 1, 2, 3])
+        add(0, [3, 3, 3], [3])
     else:
-        shapes0 = [(2, 2)]
-        shapes1 = [(3, 3)]
-        qls = [0, 1, 2]
-    pts.append({"NE": 3, "ELEN0": 3, "ELEN1": 3, "ELEN2": 3, "QL": 3, "COLON": 0})
-    pts.append({"NE": 3, "ELEN0": 4, "ELEN1": 4, "ELEN2": 4, "QL": 3, "COLON": 1})
-    for (a, b) in shapes0:
-        for ql in qls:
-            pts.append({"NE": 2, "ELEN0": a, "ELEN1": b, "QL": ql, "COLON": 0})
-    for (a, b) in shapes1:
-        for ql in qls:
-            pts.append({"NE": 2, "ELEN0": a, "ELEN1": b, "QL": ql, "COLON": 1})
+        add(0, [], [0, 1]); add(1, [], [0, 1])
+        for a in (1, 2, 3):
+            add(0, [a], range(0, 5))
+            for b in (1, 2, 3):
+                add(0, [a, b], range(0, 5))
+        for a in (1, 2, 3, 5, 7):
+            add(1, [a], range(0, 6))
+            for b in (1, 2, 3, 5, 7):
+                add(1, [a, b], range(0, 6))
+        add(0, [3, 3, 3], [2, 3]); add(0, [1, 2, 3], [1, 2, 3]); add(1, [4, 4, 4], [0, 1, 2, 3]); add(1, [7, 5, 3], [0, 2, 4])
     return pts
 
 
+def lemma_witnesses(p):
+    lens = [p["ELEN%d" % i] for i in range(p["NE"])]
+    keylens = [set(range(0, l)) if p["COLON"] else {l} for l in lens]      # possible key lengths per entry
+    w = ["not_listed"]
+    if any(p["QL"] in k for k in keylens):
+        w.append("listed")
+    if keylens and p["QL"] in keylens[-1]:
+        w.append("listed_last")
+    if keylens and p["QL"] > 0 and p["QL"] in keylens[0]:
+        w.append("listed_other_case")
+    return w
+
+
 STRALLOC = ["stralloc_opys.c", "stralloc_opyb.c", "stralloc_cats.c", "stralloc_catb.c", "stralloc_cat.c",
-            "stralloc_copy.c", "stralloc_pend.c", "byte_copy.c", "byte_rchr.c", "str_rchr.c"]
+            "stralloc_copy.c", "stralloc_pend.c", "byte_copy.c", "byte_rchr.c", "byte_chr.c", "str_rchr.c"]
 
 
 def obligations(tier):
@@ -37,8 +67,9 @@ def obligations(tier):
             # tight per-loop bounds (each is proved sufficient by its unwinding assertion):
             # longest address = R + '@' + envnoathost(2); byte_copy/byte_rchr are unrolled 4x
             unwind=lambda p: {"strlen": p["R"] + 2,
-                              "rewrite~while (constmap": p["R"] // 2 + 2,
-                              "rewrite~for (i = 0": p["R"] + 5,
+                              # both loops of rewrite(): percent hack <= R/2+1 rounds, candidate scan <= R+4 positions
+                              # (one function-level key so that a change to either loop cannot orphan the key)
+                              "rewrite": p["R"] + 5,
                               "byte_copy": (p["R"] + 3) // 4 + 2,
                               "byte_rchr": (p["R"] + 3) // 4 + 2,
                               "same": 5},
@@ -64,12 +95,50 @@ def obligations(tier):
                                         + (["default_host_then_percenthack"] if p["R"] >= 2 else [])
                                         + (["percenthack_twice"] if p["R"] >= 3 else [])
                                         + (["undetermined_fqdn_with_at"] if p["R"] >= 4 else []))),
+        Obl("senderadd", "senderadd.c",
+            progs=[Prog("qmail-send.c", nomain=True)],
+            repo=STRALLOC, lib=["arena_stralloc.c"],
+            defines={"ARENA_SLOTS": 1, "ARENA_CAP": 32},
+            grid=[{"SL": sl, "RL": rl} for sl in ([0, 3, 4, 5, 6, 7, 8] if tier == "quick" else range(0, 12))
+                  for rl in ([0, 1, 2, 3, 4] if tier == "quick" else range(0, 8))],
+            unwind=lambda p: {"strlen": max(p["SL"], p["RL"]) + 2, "senderadd": 2,      # while (!stralloc_...) nomem();
+                              "byte_copy": max(p["SL"], p["RL"]) // 4 + 2},
+            unwind_default=lambda p: p["SL"] + p["RL"] + 4,
+            backend="cadical", timeout=600,
+            functions=["qmail-send.c:senderadd", "byte_rchr.c:byte_rchr", "str_rchr.c:str_rchr", "stralloc_*.c"],
+            stubs=["stralloc_ready/readyplus: arena"],
+            assumes=["sender exactly SL bytes, recipient exactly RL bytes, any values except NUL",
+                     "VERP sender with a recipient that has no @ is not a documented combination: result not compared "
+                     "(rewrite() always produces an @)"],
+            outside=["longer senders/recipients"],
+            claim="senderadd() appends pre+recipbox=recipdomain@host for a sender pre@host-@[] (host after the final @ of the prefix, "
+                  "recipient split at its final @) and the unchanged sender otherwise, keeping what is already in the buffer",
+            expect_witnesses=lambda p: (["unchanged"]
+                                        + (["verp_expanded"] if p["SL"] >= 5 and p["RL"] >= 1 else [])
+                                        + (["verp_recipient_without_at"] if p["SL"] >= 5 else [])
+                                        + (["double_bounce_sender_unchanged"] if p["SL"] >= 4 else []))),
+        Obl("regetcontrols", "reget.c",
+            progs=[Prog("qmail-send.c", nomain=True)],
+            repo=["stralloc_opyb.c", "stralloc_copy.c", "byte_copy.c"], lib=["arena_stralloc.c"],
+            defines={"ARENA_SLOTS": 4, "ARENA_CAP": 8, "FL": 4},
+            unwind={"regetcontrols": 2, "byte_copy": 4}, unwind_default=12,
+            backend="cadical", timeout=600,
+            functions=["qmail-send.c:regetcontrols"],
+            cuts=["control_readfile -> overwrites its target, then delivers a symbolic fresh image (<= 4 bytes) and a symbolic result 1/0/-1 per file (control-file parsing is outside C10)",
+                  "constmap_free/constmap_init -> observed (order, arguments); what constmap_init builds is obligation constmap_lemma"],
+            stubs=["log1: counted", "nomem: must not be reached"],
+            assumes=["two successive HUPs; file images <= 4 bytes each, contents, lengths and read results (1/0/-1) symbolic"],
+            outside=["signal delivery and the main loop's flagreadasap test; chdir in reread()"],
+            claim="over two successive HUPs: when both files are readable maplocals/mapvdoms are each released once and then rebuilt "
+                  "(plain / key:value), with an unreadable file nothing is released or rebuilt; after every HUP the buffer under each "
+                  "table holds exactly the last successfully read file (also when a later, failing reread has overwritten the read buffers)",
+            expect_witnesses=["reread_failed", "reread_both", "reread_no_virtualdomains", "second_reread_failed", "second_reread_ok"]),
         Obl("constmap_lemma", "constmap_lemma.c",
             repo=["constmap.c", "case_diffb.c"],
             sysrename=["malloc", "free"],
             grid=lemma_grid(tier),
-            unwind={"constmap_init~for (h = 0": 66},
-            unwind_default=lambda p: p["ELEN0"] + p["ELEN1"] + p.get("ELEN2", 0) + 6,
+            unwind={"constmap_init~for (h = 0": 66, "vmain~k < 64": 66},
+            unwind_default=lambda p: p.get("ELEN0", 0) + p.get("ELEN1", 0) + p.get("ELEN2", 0) + 6,
             backend="cadical", timeout=900,
             functions=["constmap.c:constmap_init", "constmap.c:constmap", "constmap.c:hash", "case_diffb.c:case_diffb"],
             stubs=["malloc/free: five typed fixed arrays handed out in call order (sizes checked)"],
@@ -77,6 +146,6 @@ def obligations(tier):
                      "no NUL inside an entry; no two entries with the same key (ignoring case)"],
             outside=["more than 3 entries / entries longer than the grid", "allocation failure"],
             claim="constmap_init+constmap == case-insensitive exact-match linear search over the entries "
-                  "(flagcolon: key before the first ':', value pointer after it, entries without ':' ignored)",
-            expect_witnesses=lambda p: ["not_listed"] + (["listed", "listed_last"] if p["QL"] in (p["ELEN0"], p["ELEN1"]) and not p["COLON"] else [])),
+                  "(flagcolon: key before the first ':', value pointer after it, entries without ':' ignored); a lookup leaves table and image unchanged",
+            expect_witnesses=lemma_witnesses),
     ]
